@@ -26,7 +26,8 @@ Members(fn) ==
       [] fn = "cat" -> {VLst(<<>>), VLst(<<VInt(1)>>), VLst(<<VInt(2), VInt(3)>>)}
       [] fn = "tsadd" -> SerU(1)
       [] fn \in {"union", "inter"} -> IdxU
-Defaults(fn) == {None, IF fn \in {"tsadd", "union", "inter"} THEN Idx({}) ELSE VInt(0)}
+NoneLeaf == [k |-> "x", id |-> 0]                  \* None among the objects of Series.tla (a leaf known by identity)
+Defaults(fn) == IF fn \in {"tsadd", "union", "inter"} THEN {NoneLeaf, Idx({})} ELSE {None, VInt(0)}
 Kws(fn) == CASE fn \in {"pair", "sub", "add"} -> {NoKw, VInt(5)}
              [] fn = "tsadd" -> {NoKw, <<"join", "oj">>}
              [] OTHER -> {NoKw}
